@@ -35,6 +35,7 @@ def expected (sp : Spec) (v : Val) : RVal :=
   | .int i => .int i
   | .str s => .str s
   | .fix k => .dec k sp.prec
+  | .nan => .nan
 
 /-- writer type letter, reader column type and kind of value belong together -/
 def kindOk (sp : Spec) (rty : RTy) (v : Val) : Prop :=
@@ -187,6 +188,9 @@ theorem field_roundtrip (fmt : List Seg) (env : Env) (n : FName) (rty : RTy) (a 
     have hne : strip (renderField sp (.fix k)) ≠ [] := by
       intro h0; rw [h0] at hr; simp [parseDec, parseDecBody] at hr
     simp [hne, convert, hr, expected]
+  | nan =>
+    rw [hv] at hk
+    cases hty : sp.ty <;> cases rty <;> simp only [hty] at hk
 
 /-- all columns of a record at once -/
 theorem fields_roundtrip (fmt : List Seg) (env : Env) (h : allTrunc fmt = true) (slices : List RSlice)
